@@ -438,3 +438,8 @@ Proof.
   exfalso. apply (lookup_fun_None _ _ _ L v). unfold allf, canon in Hin.
   apply in_app_or in Hin. apply in_or_app. tauto.
 Qed.
+
+(* C07: every state in which close_until stops (early or not) is sound *)
+Theorem cu_sound P A s cond fuel r b :
+  Reach P A s -> exec_close_until fuel P cond s = Some (r, b) -> Sound P A r /\ Origin A r.
+Proof. intros HR H. apply sound. eapply R_close; eauto. Qed.
